@@ -554,7 +554,7 @@ def run(prop, tier, seed, t0):
             else:
                 add_violation("C11/permutation-changes-observable-behaviour", backend, defs[members[0]],
                               {"group": list(pat[0]), "definitions": [defs[n]["name"] for n in members]}, "%d distinct dumps" % len(norm), "1")
-    if totals["definitions"] < 2 * 600 or totals["records_checked"] < totals["definitions"] * 0.9 and not violations:
+    if not violations and (totals["definitions"] < 2 * 600 or totals["records_checked"] < totals["definitions"] * 0.9):
         raise Machinery("vacuity guard: C11 explored too little: %s" % totals)
     coverage = {
         "exhaustive": True,
